@@ -535,6 +535,15 @@ def replay_nth_default_identity(sc):
         want = UND.DefaultTimeNthUnderlying(default_levels=a, underlying_index=k)._value_log(times, np.log(path), np.log(jump))
         if got != want:
             out.append(f"name {k}: identity representation gives default time {got}, log representation {want} (jump path {jump[k - 1].tolist()}, path {path[k - 1].tolist()})")
+    for k in (1, 2):
+        try:
+            got = UND.NthDefaultTimes(default_levels=a, index=k).value(times, path, jump)
+        except Exception as e:
+            out.append(f"NthDefaultTimes(index={k}).value (identity representation) raises {type(e).__name__}: {str(e)[:100]}")
+            continue
+        want = UND.NthDefaultTimes(default_levels=a, index=k)._value_log(times, np.log(path), np.log(jump))
+        if got != want:
+            out.append(f"{k}-th to default: identity representation {got}, log representation {want}")
     return bool(out), "; ".join(out) if out else "identity and log representations agree on the default time of each name"
 
 
@@ -558,6 +567,11 @@ def h_nth_default_identity(ctx):
         want = UND.DefaultTimeNthUnderlying(default_levels=a, underlying_index=k)._value_log(times, None, ljump)
         same = (got == want) if (isinstance(got, float) or isinstance(want, float)) else EQ(got, want)
         ctx.prove("C17.default_time_of_a_name_follows_its_jump_path_in_both_representations", same, info={"name": k}, replay=(replay_nth_default_identity, lambda m: {}), timeout_ms=15000)
+    for k in (1, 2):
+        got = UND.NthDefaultTimes(default_levels=a, index=k).value(times, path, jump)
+        want = UND.NthDefaultTimes(default_levels=a, index=k)._value_log(times, None, ljump)
+        same = (got == want) if (isinstance(got, float) or isinstance(want, float)) else EQ(got, want)
+        ctx.prove("C17.nth_to_default_time_agrees_in_both_representations", same, info={"n": k}, replay=(replay_nth_default_identity, lambda m: {"nth": True}), timeout_ms=15000)
 
 
 def h_twin(ctx):
